@@ -429,7 +429,7 @@ func init() {
 					}
 					l, r := tr[n.K[0]].null(), tr[n.K[1]].null()
 					switch n.V {
-					case "!=":
+					case "!=", "<>":
 						return l || r
 					case "==", "=":
 						return (l && r) || (underNot && (l || r))
